@@ -24,6 +24,7 @@ structure CtrState where
   lanes : List Bytes     -- `B` counter blocks (the vector back ends keep them row-sliced)
   ecounter : Bytes       -- `B * bs` bytes of keystream
   offset : Nat
+  pending : Nat := 0     -- vector back ends: blocks to advance the lanes by before the next batch
 deriving Repr, DecidableEq, Inhabited
 
 /-- state right after `calloc` + `init`: everything zero, `offset = B*bs` -/
@@ -35,29 +36,40 @@ def CtrState.setCounter (bs B : Nat) (st : CtrState) (counter : Option Bytes) (s
   let block := match counter with
     | some c => padLeft bs (c.take size)
     | none => zeros bs
-  { st with lanes := (List.range B).map (fun j => if j = 0 then block else incCounter bs j block), offset := B * bs }
+  { st with lanes := (List.range B).map (fun j => if j = 0 then block else incCounter bs j block), offset := B * bs, pending := 0 }
 
 /-- the `while (size > 0)` loop of `*_ctr_*_encrypt`; `fuel` bounds the iterations (each one
-consumes at least one byte, so `input.length` suffices) -/
-def ctrLoop (E : Bytes → Bytes) (bs B : Nat) : Nat → CtrState → Bytes → Bytes → CtrState × Bytes
+consumes at least one byte, so `input.length` suffices).  `lazy = false` is the generic back end
+(counter incremented right after a keystream block is generated), `lazy = true` the vector back
+ends (lane counters advanced by `pending` right before the next batch is generated). -/
+def ctrLoop (E : Bytes → Bytes) (bs B : Nat) (lazy : Bool) : Nat → CtrState → Bytes → Bytes → CtrState × Bytes
   | 0, st, _, out => (st, out)
   | fuel + 1, st, input, out =>
     if input.isEmpty then (st, out)
     else if st.offset ≥ B * bs then
-      let ec := st.lanes.flatMap E
-      let lanes := st.lanes.map (incCounter bs B)
+      let lanes0 := if lazy then st.lanes.map (incCounter bs st.pending) else st.lanes
+      let ec := lanes0.flatMap E
+      let lanes := if lazy then lanes0 else lanes0.map (incCounter bs B)
+      let pending := if lazy then B else st.pending
       if input.length ≥ B * bs then
-        ctrLoop E bs B fuel { st with lanes := lanes, ecounter := ec } (input.drop (B * bs))
+        ctrLoop E bs B lazy fuel { st with lanes := lanes, ecounter := ec, pending := pending } (input.drop (B * bs))
           (out ++ xorBytes (input.take (B * bs)) ec)
       else
-        ({ lanes := lanes, ecounter := ec, offset := input.length }, out ++ xorBytes input ec)
+        ({ lanes := lanes, ecounter := ec, offset := input.length, pending := pending }, out ++ xorBytes input ec)
     else
       let temp := min (B * bs - st.offset) input.length
-      ctrLoop E bs B fuel { st with offset := st.offset + temp } (input.drop temp)
+      ctrLoop E bs B lazy fuel { st with offset := st.offset + temp } (input.drop temp)
         (out ++ xorBytes (input.take temp) (st.ecounter.drop st.offset))
 
-def ctrEncrypt (E : Bytes → Bytes) (bs B : Nat) (st : CtrState) (input : Bytes) : CtrState × Bytes :=
-  ctrLoop E bs B (input.length + 1) st input []
+def ctrEncrypt (E : Bytes → Bytes) (bs B : Nat) (lazy : Bool) (st : CtrState) (input : Bytes) : CtrState × Bytes :=
+  ctrLoop E bs B lazy (input.length + 1) st input []
+
+/-- keystream reset after a key or tweak change: the generic back end sets `offset := bs`; the
+vector back ends (`*_reset`) remember how many blocks of the current batch were used -/
+def CtrState.reset (bs B : Nat) (lazy : Bool) (st : CtrState) : CtrState :=
+  if lazy then
+    if st.offset < B * bs then { st with pending := (st.offset + bs - 1) / bs, offset := B * bs } else st
+  else { st with offset := B * bs }
 
 /-- parallel ECB: batches of `B` blocks through the vector back end (which computes the same
 function block by block), the rest through the scalar function -/
